@@ -577,6 +577,7 @@ fn on_import_line(text: &str, line: usize, col: usize) -> bool {
 }
 
 pub fn tail(s: &str) -> String {
+    let s = &scrub(s.as_bytes());
     let t: String = s.chars().rev().take(500).collect::<String>().chars().rev().collect();
     t.replace('\n', " | ")
 }
@@ -587,11 +588,32 @@ struct Runner<'a> {
     sc: &'a E2Scenario,
     tree0: Tree,
     runs: u64,
+    digest: u64,
+}
+
+thread_local! {
+    static RUN_DIGEST: std::cell::Cell<u64> = const { std::cell::Cell::new(0) };
+}
+
+/// thread ids in panic messages are the one thing that legitimately differs between runs
+fn scrub(s: &[u8]) -> String {
+    let t = String::from_utf8_lossy(s);
+    let mut out = String::new();
+    let mut rest: &str = &t;
+    while let Some(i) = rest.find("thread 'main' (") {
+        out.push_str(&rest[..i + 15]);
+        rest = &rest[i + 15..];
+        let n = rest.chars().take_while(|c| c.is_ascii_digit()).count();
+        rest = &rest[n..];
+    }
+    out.push_str(rest);
+    out
 }
 
 impl<'a> Runner<'a> {
     fn new(sc: &'a E2Scenario) -> Self {
-        Runner { sc, tree0: sc.tree_bytes(), runs: 0 }
+        RUN_DIGEST.with(|d| d.set(0));
+        Runner { sc, tree0: sc.tree_bytes(), runs: 0, digest: 0 }
     }
     fn args(&self, commands: &[&str], format: &str) -> Vec<String> {
         let mut a = self.sc.project.config_args();
@@ -612,6 +634,20 @@ impl<'a> Runner<'a> {
         self.runs += 1;
         let r = sandbox::run_cli(&self.sc.project.cwd, &self.args(commands, format), hash, rd, faults);
         let after = sandbox::snapshot();
+        let mut d = rng::mix(self.digest, r.exit as u64);
+        d = rng::mix(d, rng::fnv(&scrub(&r.stdout)));
+        d = rng::mix(d, rng::fnv(&scrub(&r.stderr)));
+        for t in &r.trace {
+            d = rng::mix(d, rng::fnv(&format!("{} {} {} {} {}", t.k, t.name, t.path, t.ret, t.errno)));
+        }
+        for (p, b) in &after {
+            d = rng::mix(d, rng::mix(rng::fnv(p), rng::fnv_bytes(b)));
+        }
+        self.digest = d;
+        RUN_DIGEST.with(|x| x.set(d));
+        if std::env::var("NVSIM_DEBUG_RUNS").is_ok() {
+            eprintln!("run {} {:?} {format} exit={} stdout={:x} stderr={:x} trace={} tree={}", self.runs, commands, r.exit, rng::fnv(&scrub(&r.stdout)), rng::fnv(&scrub(&r.stderr)), r.trace.len(), after.len());
+        }
         (r, after)
     }
 }
@@ -1277,6 +1313,7 @@ pub fn execute(sc: &E2Scenario) -> RunReport {
         sig = rng::mix(sig, rng::mix(rng::fnv(k), *v));
     }
     rep.signature = sig;
+    rep.digest = RUN_DIGEST.with(|x| x.get());
     rep.nontrivial = !rep.faults.is_empty() || !sc.injected.is_empty() || sc.hash_seeds.len() >= 2;
     rep.hash_seeds = sc.hash_seeds.clone();
     rep.sample = Some(json!({
